@@ -340,11 +340,11 @@ func (e *Engine) installIntrinsics() {
 	in["time.Now"] = func(m *machine, _ *frame, _ *ssa.Function, _ []value) value {
 		var t *Term
 		if m.now == nil {
-			t = m.newVar("i64", 64)
+			t = m.newVarHidden("clock", 64)
 			m.addPC(m.ctx.And(m.ctx.SLe(m.ctx.BV(1<<40, 64), t), m.ctx.SLt(t, m.ctx.BV(1<<59, 64))))
 		} else {
 			// monotone clock: previous reading plus an arbitrary non-negative step
-			d := m.newVar("i64", 64)
+			d := m.newVarHidden("clockstep", 64)
 			max := m.ctx.BV(1<<40, 64)
 			if st, ok := m.side["clockstep"]; ok {
 				max = st.(*Term)
